@@ -370,13 +370,20 @@ class Scratch:
             Path(base).mkdir(parents=True, exist_ok=True)
         self.dir = Path(tempfile.mkdtemp(prefix="pyxv-c12-", dir=base))
         self.n = 0
+        self.tops = {}
 
-    def file(self, stem: str, ext: str, data: bytes) -> Path:
+    def file(self, stem: str, ext: str, data: bytes, subdirs: list[str] | None = None) -> Path:
+        """Write `data` to <private dir>/f<n>/<subdirs…>/<stem><ext>; `.top` of the result is the
+        directory to remove."""
         self.n += 1
-        d = self.dir / f"f{self.n}"
-        d.mkdir()
+        top = self.dir / f"f{self.n}"
+        d = top
+        for sd in subdirs or []:
+            d = d / sd
+        d.mkdir(parents=True)
         p = d / (stem + ext)
         p.write_bytes(data)
+        self.tops[str(p)] = top
         return p
 
     def close(self):
@@ -410,9 +417,33 @@ def file_name(rng, container: str, stem: str) -> str:
     return stem + v.format(ext=ext, EXT=ext.upper(), Ext="." + ext[1:].capitalize(), ext_=ext[1:])
 
 
-def deliver(container: str, data, channel: str, scratch: Scratch, stem: str = "data", name: str | None = None):
+DIR_KINDS = ["plain", "plain", "plain", "long", "long", "very_long", "spaces", "non_ascii", "dotted", "mixed"]
+
+
+def unusual_dirs(rng, kind: str) -> list[str]:
+    """Directory components under which a workbook may well be stored: a long total path made of short
+    components (Linux: 4096 bytes in total, 255 per component), spaces, non-ASCII letters, dots in
+    directory names (incl. names that look like files of a supported type)."""
+    if kind == "plain":
+        return []
+    if kind == "long":  # total path > 260 characters
+        return [f"folder_{i:02d}_" + "x" * rng.randint(5, 20) for i in range(rng.randint(14, 20))]
+    if kind == "very_long":  # > 1000 characters
+        return ["d" * rng.randint(40, 120) for _ in range(rng.randint(12, 16))]
+    if kind == "spaces":
+        return ["My Documents", "field work 2024 ", " forms (final)"]
+    if kind == "non_ascii":
+        return ["données", "调查", "опрос", "été 2024"]
+    if kind == "dotted":
+        return ["v1.2", "forms.md", "archive.xlsx", ".hidden", "a.b.c"]
+    return ["Ünï code dir", "v2.0.backup"] + ["long component " + "y" * 30 for _ in range(rng.randint(6, 9))]
+
+
+def deliver(container: str, data, channel: str, scratch: Scratch, stem: str = "data", name: str | None = None,
+            subdirs: list[str] | None = None):
     """Returns (xlsform argument, cleanup callable, supplies_stem: bool).  `name` = the whole file name
-    (default: stem + the container's canonical suffix)."""
+    (default: stem + the container's canonical suffix); `subdirs` = directory components below the
+    private temp directory."""
     raw = data.encode("utf-8") if isinstance(data, str) else data
     if channel == "str":
         return data, (lambda: None), False
@@ -428,10 +459,10 @@ def deliver(container: str, data, channel: str, scratch: Scratch, stem: str = "d
         b = io.BytesIO(raw)
         b.read(4)
         return b, (lambda: None), False
-    p = scratch.file(name, "", raw) if name is not None else scratch.file(stem, EXT[container], raw)
+    p = scratch.file(name, "", raw, subdirs) if name is not None else scratch.file(stem, EXT[container], raw, subdirs)
 
     def rm():
-        shutil.rmtree(p.parent, ignore_errors=True)
+        shutil.rmtree(scratch.tops.pop(str(p), p.parent), ignore_errors=True)
 
     if channel == "path":
         return str(p), rm, True
